@@ -312,6 +312,19 @@ func generate(cfg *hx.Config) []hx.Case {
 			if mode == "byte" && e.BLen > 70000 {
 				e.BLen = 70000
 			}
+			if mode == "pipe" && closeAt >= 0 && i >= closeAt {
+				// The proxy closes the socket after the closing exchange while
+				// pipelined bytes are still unread, which makes the kernel send a
+				// RST; a response tail still in the proxy's send queue is then
+				// lost (timing dependent, see notes/C01.md). Keep what follows a
+				// close small so that the check itself is deterministic.
+				if i > closeAt {
+					e.BLen, e.RqF = 0, "n"
+				}
+				if e.SBLen > 8192 {
+					e.SBLen = 8192
+				}
+			}
 			exs = append(exs, e)
 		}
 		cases = append(cases, caseOf(fmt.Sprintf("g%d", k), mode, exs))
